@@ -51,6 +51,12 @@ CHECKS = {
  "C14": ("exploration", "three-path differential monitor: transport logs and results of the generic, per-game-module and protocol-level call paths under the same scripted server, for every GAMES entry (table iterated at run time)",
          "Every GAMES entry x port given/omitted x 7 server behaviours (valid with main/dedicated/foreign app id, players silent, rules silent, malformed, silence) x 6 (quick) / 80 (thorough) states: identical connect/send logs and equal results (JSON; Valve projected to game::Response; Err by kind) across the three paths. Module functions are located through tables generated at build time from the repository's game_query_mod! lines; Eco is probed with real loopback listeners.",
          "Modules matched to definitions by pretty name; unmapped entries are inconclusive for that entry only.", "4 C14"),
+ "C15": ("exploration", "reference-table monitor: accessor / as_json / as_original observations of directly generated response values against an accessor table written from the field documentation",
+         "1.5e5 (quick) / 6e6 (thorough) values of the 15 response types and their player types, generated through their public fields from the models' states, are compared with DESIGN Appendix B.1: every accessor, as_json() field by field and through serde_json, players' name/score/as_json, and as_original() (variant, equality and pointer identity).",
+         "Table written from the struct field docs; theship game_version accessor observe-only; Minetest/Epic types not built (tls feature).", "4 C15"),
+ "C16": ("exploration", "transport-log monitor with a reference grammar parser + reference builder model; scripted page histories for paging; exhaustive short insertion sequences",
+         "All insertion sequences of length <=2 (quick) / <=3 (thorough, 160 434) over 18 filter kinds x 3 groups: the recorded request is parsed by a reference parser of the Master Server Query Protocol grammar and must denote exactly the model's plain/NAND/NOR groups, region and seed; page histories of 1-6 pages x 1-230 entries with every kind of ending check the returned list, the seed of each follow-up request and that nothing is requested after the terminator.",
+         "Filter keys/grammar from DESIGN Appendix A.9; values without backslash/NUL/comma; empty tag lists and mid-page terminators observe-only.", "4 C16"),
 }
 NOT_YET = {}
 for i in range(1, 21):
